@@ -1,4 +1,9 @@
-// Unit c03_resource_containers -- properties C03 / C10 (container level)
+// Unit c03_resource_containers -- property C03 "Every committed transaction conserves resources" and
+// property C10 "Funds behind a live proof cannot be withdrawn", at the level of the resource CONTAINERS.
+// Real code: radix-engine-interface/src/blueprints/resource/resource.rs (every method of
+//   LiquidFungibleResource, LiquidNonFungibleResource, LockedFungibleResource, LockedNonFungibleResource
+//   and their Default impls) and radix-engine-interface/src/blueprints/resource/mod.rs :: check_fungible_amount.
+// Amounts are integers counting attos (Decimal::v()); a non-fungible balance is the finite set of its ids.
 use vstd::prelude::*;
 // the `indexset!()` macro of radix-rust with no arguments builds an empty IndexSet (shims/sets.rs: index_set_new)
 macro_rules! indexset { () => { index_set_new() } }
@@ -11,6 +16,7 @@ verus! {
 
 pub mod env {
     use vstd::prelude::*;
+    // Environment: non-fungible local ids are opaque values; only equality and Clone matter.
     #[verifier::external_body]
     pub struct NonFungibleLocalId { x: Vec<u8> }
     impl Clone for NonFungibleLocalId {
